@@ -250,6 +250,14 @@ impl PoolMap {
         let mut removed_ids = vec![id.to_owned()];
         removed_ids.extend(self.calc_descendants(id));
 
+        // the ancestors that stay in the pool stop counting the removed entries among their descendants;
+        // this reads the links, so it has to happen before they are dropped
+        for id in &removed_ids {
+            if let Some(entry) = self.get(id).cloned() {
+                self.update_ancestors_index_key(&entry, EntryOp::Remove);
+            }
+        }
+
         // update links state for remove, so that we won't update_descendants_index_key in remove_entry
         for id in &removed_ids {
             self.remove_entry_links(id);
